@@ -78,6 +78,15 @@ def run(ctx):
     from . import c10
     for name in ("check_gate", "check_equality", "check_number_equality"):
         ctx.attempt(name, getattr(c10, name), ctx, lib)
+    # where a projection's right-hand side (and every operand) ends is decided by the parser's binding powers: the
+    # operand-power rows of C04 on the same facts
+    from ..parsing import lbp_table
+    from .c04 import check_operands
+    table, why = lbp_table(lib)
+    if table is None:
+        ctx.missing("operand-power", "Token::lbp", why)
+    else:
+        ctx.attempt("check_operands", check_operands, ctx, lib, table)
 
 
 def single_ok(arm):
